@@ -253,6 +253,12 @@ def run(ctx, impl_only=False):
         tr = ctx.rng.choice(['truncate_day', 'truncate_hour', 'truncate_datetime'])
         dz = ctx.rng.choice([None, 'tz_m5', 'tz_530', 'default_timezone'])
         cases.append((w(x), w(y), (tr,) if dz is None else (tr, dz)) + (('direct',) if wi < 2 else ()))      # root and dictionary value: compared by _diff_datetime itself
+    # hostile keys, edge-case leaves and shared sub-objects (implementation only): each pair and the pair of a value with its deep copy
+    from . import _difffam as FAM
+    for (t1_, t2_) in FAM.hostile_pairs(ctx, 100 if ctx.thorough() else 20):
+        cases.append((t1_, t2_, ('none',)))
+        cases.append((t1_, copy.deepcopy(t1_), ('none',)))
+        cases.append((t1_, t2_, (ctx.rng.choice(['ignore_string_case', 'ignore_numeric_type_changes', 'significant_digits', 'truncate_datetime']),)))
     for case_ in cases:
         a, b, combo = case_[:3]
         direct = len(case_) > 3
